@@ -50,6 +50,11 @@ class Ty:
         self.defaultable = defaultable
         self.keyable = keyable            # usable as a map key (has operator< and std::hash)
         self.depth = depth
+        self.kind, self.kids, self.params = "prim", [], {}      # structural view (used by gen/funggen.py)
+
+    def shaped(self, kind, kids=(), **params):
+        self.kind, self.kids, self.params = kind, list(kids), dict(params)
+        return self
 
     def with_decls(self, others):
         d = []
@@ -125,7 +130,7 @@ def enum(under, scoped=True):
         else:
             text = "enum %s : %s { %s_None = 0, %s_A = 1, %s_B = %s, %s_Max = std::numeric_limits<%s>::max() };" % (nm, u[0], nm, nm, nm, b, nm, u[0])
         _enum_decls[nm] = Decl(nm, text, "")
-    return Ty(nm, nm, 0, decls=[_enum_decls[nm]], keyable=True)
+    return Ty(nm, nm, 0, decls=[_enum_decls[nm]], keyable=True).shaped("enum", under=under, scoped=scoped)
 
 
 def _elem_flags(t):
@@ -139,41 +144,41 @@ def _elem_flags(t):
 
 
 def vec(t):
-    return _merge("std::vector<%s>" % t.cpp, "vector<%s>" % t.name, [t], _elem_flags(t))
+    return _merge("std::vector<%s>" % t.cpp, "vector<%s>" % t.name, [t], _elem_flags(t)).shaped("vec", [t])
 
 
 def arr(t, n):
-    return _merge("std::array<%s, %d>" % (t.cpp, n), "array<%s,%d>" % (t.name, n), [t], _elem_flags(t))
+    return _merge("std::array<%s, %d>" % (t.cpp, n), "array<%s,%d>" % (t.name, n), [t], _elem_flags(t)).shaped("arr", [t], n=n)
 
 
 def mp(k, v):
-    return _merge("std::map<%s, %s>" % (k.cpp, v.cpp), "map<%s,%s>" % (k.name, v.name), [k, v])
+    return _merge("std::map<%s, %s>" % (k.cpp, v.cpp), "map<%s,%s>" % (k.name, v.name), [k, v]).shaped("map", [k, v])
 
 
 def ump(k, v):
-    return _merge("std::unordered_map<%s, %s>" % (k.cpp, v.cpp), "unordered_map<%s,%s>" % (k.name, v.name), [k, v], F_UNORDERED)
+    return _merge("std::unordered_map<%s, %s>" % (k.cpp, v.cpp), "unordered_map<%s,%s>" % (k.name, v.name), [k, v], F_UNORDERED).shaped("umap", [k, v])
 
 
 def pair(a, b):
-    return _merge("std::pair<%s, %s>" % (a.cpp, b.cpp), "pair<%s,%s>" % (a.name, b.name), [a, b])
+    return _merge("std::pair<%s, %s>" % (a.cpp, b.cpp), "pair<%s,%s>" % (a.name, b.name), [a, b]).shaped("pair", [a, b])
 
 
 def tup(*ts):
-    return _merge("std::tuple<%s>" % ", ".join(t.cpp for t in ts), "tuple<%s>" % ",".join(t.name for t in ts), list(ts))
+    return _merge("std::tuple<%s>" % ", ".join(t.cpp for t in ts), "tuple<%s>" % ",".join(t.name for t in ts), list(ts)).shaped("tup", list(ts))
 
 
 def opt(t):
     amb = F_AMBIGUOUS if t.cpp.startswith("nop::Optional<") else 0
-    return _merge("nop::Optional<%s>" % t.cpp, "Optional<%s>" % t.name, [t], amb)
+    return _merge("nop::Optional<%s>" % t.cpp, "Optional<%s>" % t.name, [t], amb).shaped("opt", [t])
 
 
 def res(e, t):
     amb = F_AMBIGUOUS if t.cpp.startswith("nop::Result<") else 0
-    return _merge("nop::Result<%s, %s>" % (e.cpp, t.cpp), "Result<%s,%s>" % (e.name, t.name), [e, t], amb)
+    return _merge("nop::Result<%s, %s>" % (e.cpp, t.cpp), "Result<%s,%s>" % (e.name, t.name), [e, t], amb).shaped("res", [e, t])
 
 
 def var(*ts):
-    return _merge("nop::Variant<%s>" % ", ".join(t.cpp for t in ts), "Variant<%s>" % ",".join(t.name for t in ts), list(ts))
+    return _merge("nop::Variant<%s>" % ", ".join(t.cpp for t in ts), "Variant<%s>" % ",".join(t.name for t in ts), list(ts)).shaped("var", list(ts))
 
 
 def refw(t):
@@ -253,7 +258,7 @@ def struct(members, name=None, external=False):
             extra |= _elem_flags(m.ty)
     t = _merge(nm, "%s{%s}" % (nm, ";".join(descs)), kids, extra)
     t.decls.append(Decl(nm, text, reflect))
-    return t
+    return t.shaped("struct", kids, members=list(members), external=external)
 
 
 def wrapper(inner, name=None):
@@ -273,7 +278,7 @@ def wrapper(inner, name=None):
         t = _merge(nm, "%s=wrap(%s)" % (nm, inner.name), [inner])
     t.integral = False
     t.decls.append(Decl(nm, text, reflect))
-    return t
+    return t.shaped("wrap_lb" if isinstance(inner, LBuf) else "wrap", [inner.elem] if isinstance(inner, LBuf) else [inner], inner=inner)
 
 
 def table(entries, name=None, hash_kind=("hash", 0)):
@@ -307,7 +312,7 @@ def table(entries, name=None, hash_kind=("hash", 0)):
         nm, hv, ", ".join(sch), ", ".join(ids), ", ".join(act), nm, nm, ", ".join(tov), nm, " ".join(frm))
     t = _merge(nm, "%s<%s>" % (nm, ";".join(descs)), kids, F_TABLE)
     t.decls.append(Decl(nm, text, reflect))
-    return t
+    return t.shaped("table", kids, entries=list(entries), hash_kind=hash_kind)
 
 
 # ---------------------------------------------------------------- curated corpus
